@@ -146,6 +146,29 @@ def run(src, q):
     r.adj, r.n, r.sens, r.best, r.X = adj, n, sens, best, X
     with stubs.sut():
         r.hops = m_utils.get_minimal_hops_to_goal(T, sens)
+    # the same question through the public API (Network.get_minimal_hops / NASimEnv.get_minimum_hops
+    # use the scenario's topology), after another network with the same subnets and sensitive
+    # hosts but a chain topology has been asked: the answer must not depend on earlier networks
+    import nasim.envs.network as m_net
+
+    def mk(topology):
+        # a real Scenario object (hosts with one service, permissive firewalls)
+        import nasim.scenarios.utils as u
+        from nasim.scenarios.scenario import Scenario
+        from nasim.scenarios.host import Host
+        sizes = [1] + [max([a[1] for a in sens if a[0] == s] + [0]) + 1 for s in range(1, n)]
+        hosts = {(s, h): Host((s, h), {'os': True}, {'srv': True}, {'proc': True}, {},
+                              value=10.0 if (s, h) in sens else 0.0)
+                 for s in range(1, n) for h in range(sizes[s])}
+        sd = {u.SUBNETS: sizes, u.TOPOLOGY: topology, u.OS: ['os'], u.SERVICES: ['srv'], u.PROCESSES: ['proc'],
+              u.SENSITIVE_HOSTS: {a: 10.0 for a in sens}, u.EXPLOITS: {}, u.PRIVESCS: {},
+              u.OS_SCAN_COST: 1, u.SERVICE_SCAN_COST: 1, u.SUBNET_SCAN_COST: 1, u.PROCESS_SCAN_COST: 1,
+              u.FIREWALL: {}, u.HOSTS: hosts, u.STEP_LIMIT: None}
+        return Scenario(sd, name='c20')
+    chain = [[1 if abs(i - j) <= 1 else 0 for j in range(n)] for i in range(n)]
+    with stubs.sut():
+        m_net.Network(mk(chain)).get_minimal_hops()
+        r.hops_api = m_net.Network(mk(T)).get_minimal_hops()
     return r
 
 
@@ -171,7 +194,8 @@ def obligations(r):
     extra = len(set(r.sens)) - len(subnets)
     best = r.best
     hops = int(r.hops)
-    return [('hops_at_most_min_hosts_to_compromise', z3.BoolVal(hops <= best + extra))]
+    return [('hops_at_most_min_hosts_to_compromise', z3.BoolVal(hops <= best + extra)),
+            ('network_api_hops_at_most_min_hosts_to_compromise', z3.BoolVal(int(r.hops_api) <= best + extra))]
 
 
 def witnesses(r):
